@@ -15,7 +15,8 @@ def run(c):
               "(2) candidates: 1-3 seeds (own listeners or known brokers' addresses) + 1-3 known brokers, each healthy / closed "
               "listener / dropping the connection mid-request, changing per round; constructor + 1-3 RefreshMetadata calls, "
               "Metadata.Retry.Max 0-2; 48 further scenarios under Metadata.Timeout = 150 ms with slow-failing candidates (silent for 220 ms, "
-              "then closed) so that the deadline passes during a pass, Retry.Max 0-1, followed by refreshes after recovery. (3) 3 readers concurrent with 150 alternating full refreshes. Non-trivial: >= 2 responses served "
+              "then closed) so that the deadline passes during a pass, Retry.Max 0-1, followed by refreshes after recovery; 150 scenarios with leaderless answers (the refresh retries inside the call, Retry.Max 1-2) "
+              "while other seeds are unreachable and set aside, advertised brokers reachable or not, further refreshes. (3) 3 readers concurrent with 150 alternating full refreshes. Non-trivial: >= 2 responses served "
               "and >= 10 calls (histories); >= 1 failing candidate and >= 2 rounds (candidates); both views observed (concurrent)")
     c.trust("correspondence harness go/harness/cmd/c15corr + go/shims/c19_shim.go, c15_shim.go (scripted MockBroker handler, seed order view)")
     c.trust("Coq 8.16.1 kernel + vm_compute (evaluation of the model on the harness cases)")
@@ -42,7 +43,8 @@ def run(c):
     n = 600 if c.tier == "quick" else 6000
     conc = 4 if c.tier == "quick" else 40
     ndl = 48 if c.tier == "quick" else 480
-    rc, out = c.run([b, "-out", c.build, "-seed", str(c.seed), "-n", str(n), "-conc", str(conc), "-dl", str(ndl)], timeout=2400)
+    nll = 150 if c.tier == "quick" else 3000
+    rc, out = c.run([b, "-out", c.build, "-seed", str(c.seed), "-n", str(n), "-conc", str(conc), "-dl", str(ndl), "-ll", str(nll)], timeout=2400)
     if rc != 0:
         c.break_("corr", "c15corr harness run failed (a crash here may be a concurrent map access)", out)
         return
